@@ -899,8 +899,13 @@ class TorConfig:
 
     def mark_unsaved(self, name):
         name = self._find_real_name(name)
-        if name in self.config and name not in self.unsaved:
-            self.unsaved[name] = self.config[self._find_real_name(name)]
+        # the list that was just edited in place is the one reads
+        # return; it becomes the pending value unless it already is
+        # (a pending value that is some other object -- an earlier
+        # assignment, or a list since replaced by a CONF_CHANGED
+        # event -- must not hide this edit from save())
+        if name in self.config and self.unsaved.get(name) is not self.config[name]:
+            self.unsaved[name] = self.config[name]
 
     def save(self):
         """
